@@ -409,13 +409,24 @@ unsafe fn plain(ctx: Ctx, i: u64, arg: u64) -> String {
     }
 }
 
+thread_local! {
+    /// ask `hasNext` twice per item (it must be idempotent: it peeks)
+    static DBL: std::cell::Cell<bool> = const { std::cell::Cell::new(false) };
+    /// a violation of the slot protocol noticed inside `observe`
+    static ANOMALY: std::cell::RefCell<Option<String>> = const { std::cell::RefCell::new(None) };
+}
+
+fn dbl() -> bool {
+    DBL.with(|d| d.get())
+}
+
 /// the documented loops; `limit` = how many items are fetched before the loop is abandoned
 unsafe fn cand_loop(ctx: Ctx, limit: usize, stat: bool) -> String {
     unsafe {
         let mut o = String::from("cand[");
         chewing_cand_Enumerate(ctx);
         let mut n = 0;
-        while n < limit && chewing_cand_hasNext(ctx) == 1 {
+        while n < limit && chewing_cand_hasNext(ctx) == 1 && (!dbl() || chewing_cand_hasNext(ctx) == 1) {
             let s = if stat { borrowed(chewing_cand_String_static(ctx)) } else { owned(chewing_cand_String(ctx)) };
             let _ = write!(o, " {}", s);
             n += 1;
@@ -430,7 +441,7 @@ unsafe fn interval_loop(ctx: Ctx, limit: usize) -> String {
         let mut o = String::from("interval[");
         chewing_interval_Enumerate(ctx);
         let mut n = 0;
-        while n < limit && chewing_interval_hasNext(ctx) == 1 {
+        while n < limit && chewing_interval_hasNext(ctx) == 1 && (!dbl() || chewing_interval_hasNext(ctx) == 1) {
             let mut it = IntervalType { from: -1, to: -1 };
             chewing_interval_Get(ctx, &mut it);
             let _ = write!(o, " {}-{}", it.from, it.to);
@@ -446,7 +457,7 @@ unsafe fn kbtype_loop(ctx: Ctx, limit: usize, stat: bool) -> String {
         let mut o = String::from("kbtype[");
         chewing_kbtype_Enumerate(ctx);
         let mut n = 0;
-        while n < limit && chewing_kbtype_hasNext(ctx) == 1 {
+        while n < limit && chewing_kbtype_hasNext(ctx) == 1 && (!dbl() || chewing_kbtype_hasNext(ctx) == 1) {
             let s = if stat { borrowed(chewing_kbtype_String_static(ctx)) } else { owned(chewing_kbtype_String(ctx)) };
             let _ = write!(o, " {}", s);
             n += 1;
@@ -461,7 +472,7 @@ unsafe fn userphrase_loop(ctx: Ctx, limit: usize) -> String {
         let mut o = format!("userphrase[{}:", chewing_userphrase_enumerate(ctx));
         let mut n = 0;
         let (mut pl, mut bl): (c_uint, c_uint) = (0, 0);
-        while n < limit && chewing_userphrase_has_next(ctx, &mut pl, &mut bl) == 1 {
+        while n < limit && chewing_userphrase_has_next(ctx, &mut pl, &mut bl) == 1 && (!dbl() || chewing_userphrase_has_next(ctx, &mut pl, &mut bl) == 1) {
             let mut pb = vec![0u8; pl as usize + 1];
             let mut bb = vec![0u8; bl as usize + 1];
             let rc = chewing_userphrase_get(ctx, pb.as_mut_ptr().cast(), pb.len() as c_uint, bb.as_mut_ptr().cast(), bb.len() as c_uint);
@@ -553,7 +564,16 @@ unsafe fn observe(ctx: Ctx) -> String {
                 }
             }
         }
-        let _ = write!(o, "{} | {} | {} | {}", cand_loop(ctx, 100000, false), interval_loop(ctx, 100000), kbtype_loop(ctx, 1000, true), userphrase_loop(ctx, 100000));
+        let loops = |ctx: Ctx| format!("{} | {} | {} | {}", cand_loop(ctx, 100000, false), interval_loop(ctx, 100000), kbtype_loop(ctx, 1000, true), userphrase_loop(ctx, 100000));
+        let l1 = loops(ctx);
+        // the same loops asking hasNext twice per item, and the candidate loop against the indexed getter
+        DBL.with(|d| d.set(true));
+        let l2 = loops(ctx);
+        DBL.with(|d| d.set(false));
+        if l1 != l2 {
+            ANOMALY.with(|a| *a.borrow_mut() = Some(format!("hasNext is not idempotent: loop with one hasNext per item {} ; with two {}", first_diff(&l1, &l2), "(see first)")));
+        }
+        let _ = write!(o, "{}", l1);
         o
     }
 }
@@ -567,6 +587,19 @@ struct W {
 impl W {
     fn fail(&mut self, what: &str, hist: &[String], seed: u64, detail: &str) {
         self.out.oracle_fail("C17", "new", &format!("capi {}: {} ; trace-seed {} calls [{}]", what, detail, seed, hist.join(" ; ")));
+    }
+}
+
+fn anomaly(w: &mut W, hist: &[String], seed: u64) -> bool {
+    match ANOMALY.with(|a| a.borrow_mut().take()) {
+        Some(x) => {
+            // the first few are enough
+            if ANOMALIES.fetch_add(1, Ordering::Relaxed) < 3 {
+                w.fail("iterator slot protocol", hist, seed, &x);
+            }
+            true
+        }
+        None => false,
     }
 }
 
@@ -621,6 +654,7 @@ fn trace_getters(w: &mut W, seed: u64, n_ops: usize, st: &mut Stats) {
             if rng.chance(1, 5) {
                 st.observations += 1;
                 let (oa, ob) = unsafe { (observe(a), observe(b)) };
+                anomaly(w, &hist, seed);
                 if oa != ob {
                     w.fail("with/without queries: observations differ", &hist, seed, &first_diff(&oa, &ob));
                     ok = false;
@@ -633,6 +667,7 @@ fn trace_getters(w: &mut W, seed: u64, n_ops: usize, st: &mut Stats) {
     if ok {
         st.observations += 1;
         let (oa, ob) = unsafe { (observe(a), observe(b)) };
+        anomaly(w, &hist, seed);
         if oa != ob {
             w.fail("with/without queries: observations differ at the end", &hist, seed, &first_diff(&oa, &ob));
         }
@@ -709,6 +744,7 @@ fn trace_reset(w: &mut W, seed: u64, n_ops: usize, st: &mut Stats) {
         w.fail("reset vs new context: iterator slots read without Enumerate differ directly after the reset", &hist, seed, &first_diff(&xa, &xb));
     }
     let (oa, ob) = unsafe { (observe(a), observe(b)) };
+    anomaly(w, &hist, seed);
     st.observations += 1;
     let mut ok = true;
     if oa != ob {
@@ -729,6 +765,7 @@ fn trace_reset(w: &mut W, seed: u64, n_ops: usize, st: &mut Stats) {
                 if rng.chance(1, 3) {
                     st.observations += 1;
                     let (oa, ob) = unsafe { (observe(a), observe(b)) };
+                    anomaly(w, &hist, seed);
                     if oa != ob {
                         w.fail("reset vs new context: observations differ", &hist, seed, &first_diff(&oa, &ob));
                         break 'outer;
@@ -811,6 +848,7 @@ fn trace_contexts(w: &mut W, seed: u64, n_ops: usize, threaded: bool, st: &mut S
             if rng.chance(1, 5) {
                 st.observations += 1;
                 let (oa, ob) = unsafe { (observe(a), observe(a2)) };
+                anomaly(w, &hist, seed);
                 if oa != ob {
                     w.fail("alone vs beside another context: observations differ", &hist, seed, &first_diff(&oa, &ob));
                     break 'outer;
@@ -833,6 +871,7 @@ fn trace_contexts(w: &mut W, seed: u64, n_ops: usize, threaded: bool, st: &mut S
 
 // ------------------------------------------------------------------ L: the logger slot (F33)
 
+static ANOMALIES: AtomicU64 = AtomicU64::new(0);
 static LOG: Mutex<Vec<usize>> = Mutex::new(Vec::new());
 
 unsafe extern "C" fn log_cb(data: *mut c_void, _level: c_int, _fmt: *const c_char, _arg: *const c_char) {
